@@ -146,7 +146,8 @@ def gen_desc(rng: random.Random, pname: str, thorough: bool) -> dict:
     if pname in ('GreedyPartitioner', 'ClusteringPartitioner'):
         # Circuit.surround is exponential in the block size
         k = min(k, 4)
-        nsteps = min(nsteps, 30 if k <= 3 else 20)
+        nsteps = min(nsteps, (80 if thorough else 30) if k <= 3
+                     else (30 if thorough else 20))
     if pname == 'ScanPartitioner' and big:
         # ScanPartitioner enumerates all connected qudit groups of size <= k
         k = min(k, 4)
@@ -366,29 +367,68 @@ def grid(c):
 # ----------------------------------------------------------------- oracle
 def leaves(c):
     """recursively unfolded operations in program order:
-    (gate key, exact params, global location, depth, is-barrier-like)"""
+    (gate key, exact params, global location, depth, is-barrier-like,
+    index of the top-level operation it sits in)"""
     from bqskit.ir.gates import CircuitGate
     BL = barrier_classes()
     out = []
 
-    def rec(ops, locmap, depth):
-        for op in ops:
+    def rec(ops, locmap, depth, top):
+        for i, op in enumerate(ops):
+            t = i if depth == 0 else top
             if isinstance(op.gate, CircuitGate):
                 sub = op.gate._circuit.copy()
                 sub.set_params(op.params)
-                rec(list(sub), [locmap[q] for q in op.location], depth + 1)
+                rec(list(sub), [locmap[q] for q in op.location], depth + 1, t)
             else:
                 out.append((gate_key(op.gate),
                             tuple(float(p) for p in op.params),
                             tuple(locmap[q] for q in op.location), depth,
-                            isinstance(op.gate, BL)))
-    rec(list(c), list(range(c.num_qudits)), 0)
+                            isinstance(op.gate, BL), t))
+    rec(list(c), list(range(c.num_qudits)), 0, 0)
     return out
+
+
+def blocks_cyclic(before_lv, after, n) -> bool:
+    """Are the top-level operations of the output, seen as sets of input
+    operations, cyclically dependent in the input's program order?  (Then no
+    arrangement of these blocks can preserve the program.)  Equal operations are
+    matched by order of occurrence."""
+    occ: dict = {}
+    for x in after:
+        occ.setdefault((x[0], x[1], x[2]), []).append(x[5])
+    cnt: Counter = Counter()
+    edges: dict = {}
+    last: list = [None] * n
+    for x in before_lv:
+        t = (x[0], x[1], x[2])
+        b = occ[t][cnt[t]]
+        cnt[t] += 1
+        for q in x[2]:
+            if last[q] is not None and last[q] != b:
+                edges.setdefault(last[q], set()).add(b)
+            last[q] = b
+    # Kahn
+    nodes = set(edges) | {b for bs in edges.values() for b in bs}
+    indeg = {b: 0 for b in nodes}
+    for a, bs in edges.items():
+        for b in bs:
+            indeg[b] += 1
+    todo = [b for b in nodes if indeg[b] == 0]
+    seen = 0
+    while todo:
+        a = todo.pop()
+        seen += 1
+        for b in edges.get(a, ()):
+            indeg[b] -= 1
+            if indeg[b] == 0:
+                todo.append(b)
+    return seen != len(nodes)
 
 
 def timelines(lv, n):
     tl = [[] for _ in range(n)]
-    for key, ps, loc, _d, _b in lv:
+    for key, ps, loc, *_rest in lv:
         for q in loc:
             tl[q].append((key, ps, loc))
     return tl
@@ -419,6 +459,10 @@ def oracle(before_lv, before_radixes, before_depth0, c, k):
                 v['order-changed'] = (
                     f'qudit {q} position {i}: input {tb[q][i]} '
                     f'output {ta[q][i]}')
+                if blocks_cyclic(before_lv, after, n):
+                    v['_cyclic-blocks'] = '1'
+                    v['order-changed'] += ('; the blocks formed depend on '
+                                           'each other cyclically')
                 break
     # the public unfolding (observable named by the property) agrees with the
     # harness' own recursive unfolding of the output
@@ -613,10 +657,14 @@ def run_case(desc, want_lines=True, trace=False):
             exp.append(expected_clause(v, strict, False))
         if events is not None:
             from harness import c08_quick
-            ql, qe = c08_quick.render_events(r, before, events, k, c)
+            qmoves, bmoves = events
+            ql, qe = c08_quick.render_events(r, before, qmoves, k, c)
             checks.append(ql)
             exp.append(qe)
-            res['quick_events'] = len(events)
+            checks.append(c08_quick.render_bins(r, before, bmoves))
+            exp.append('ok')
+            res['quick_events'] = len(qmoves)
+            res['bin_events'] = len(bmoves)
         lines = ['reset'] + r.defs + checks
         res['lines'] = lines
         res['nprefix'] = 1 + len(r.defs)
@@ -851,6 +899,8 @@ def process(ck: Check, results):
                     and False:
                 continue
             sig = f'{flag}:{pname}'
+            if flag == 'order-changed' and '_cyclic-blocks' in v:
+                sig += ':cyclic-blocks'
             desc = r['desc']
             if not is_known(ck, sig):
                 desc = shrink(desc, flag)
@@ -879,6 +929,9 @@ def process(ck: Check, results):
         ck.coverage['traces_validated_against_impl'] += 1
         if ln.startswith('check'):
             ck.bump('lean_verdicts', out)
+        elif ln.startswith('bins'):
+            ck.bump('binspec_verdicts', out.split(' ')[0])
+            ck.bump('binspec_moves', n=r.get('bin_events', 0))
         else:
             from harness import c08_quick
             ck.bump('quickspec_verdicts', out.split(' ')[0])
@@ -893,6 +946,9 @@ def process(ck: Check, results):
             if kind == 'quick':
                 # "illegal <move index>" / "stuck <n>" / "groups-differ"
                 sig = f'quickspec-{out.split(" ")[0]}:{pname}'
+            if kind == 'bins':
+                # illegal / bookkeeping / drain-stuck / unplaced <index>
+                sig = f'binspec-{out.split(" ")[0]}:{pname}'
             strict = PASS_INFO[pname][0]
             if out == 'violated unblocked-op' or (
                     strict and 'unblocked' in r['verdicts']):
